@@ -159,6 +159,53 @@ def handler(st, opts):
     return {"problems": problems, "stats": stats, "sample": sample}
 
 
+def tied_extra(run):
+    """objects whose cores are different views of one buffer beginning at the same address (a tied parametrisation): every copy
+    operation must reproduce the object, not the buffer"""
+    import torchtt as tt
+    n = 0
+    for dt in (torch.float64, torch.float32, torch.complex128):
+        u = (torch.arange(1, 13, dtype=torch.float64) / 7.0).to(dt)
+        Bm = (torch.arange(1, 10, dtype=torch.float64).reshape(1, 3, 3, 1) / 5.0).to(dt)
+        objs = {"prefix views": lambda: tt.TT([u[:5].reshape(1, 5, 1), u[:4].reshape(1, 4, 1), u[:3].reshape(1, 3, 1)]),
+                "two shapes of one buffer": lambda: tt.TT([u.reshape(1, 4, 3), u.reshape(3, 4, 1)]),
+                "operator and its transposed view": lambda: tt.TT([Bm, Bm.transpose(1, 2)])}
+        for oname, mk in objs.items():
+            X = mk()
+            ref = project.dense(X.cores).clone()
+            pre = project.derived_desc(X.cores)
+            ops = {"clone": lambda: X.clone(), "detach": lambda: X.detach(), "cpu": lambda: X.cpu(), "to": lambda: X.to("cpu"),
+                   "conj.conj": lambda: X.conj().conj(), "save_load": None}
+            for op, th in ops.items():
+                n += 1
+
+                def P(cls, msg, op=op, oname=oname, dt=dt):
+                    return {"prop": "C19", "cls": cls, "op": op, "key": {"op": op, "cls": cls, "origin": "tied"},
+                            "msg": "%s of a TT with tied cores (%s, %s): %s" % (op, oname, dt, msg),
+                            "replay": {"engine": "vf.copyrun", "note": "deterministic extra case; rerun the check"}}
+                try:
+                    if op == "save_load":
+                        os.makedirs(TMP, exist_ok=True)
+                        dd = tempfile.mkdtemp(dir=TMP)
+                        try:
+                            tt.save(X, os.path.join(dd, "t.TT")); Y = tt.load(os.path.join(dd, "t.TT"))
+                        finally:
+                            shutil.rmtree(dd, ignore_errors=True)
+                    else:
+                        Y = th()
+                except Exception as ex:  # noqa
+                    run.problems.append(P("exception", "raised %s: %s" % (type(ex).__name__, str(ex)[:160])))
+                    continue
+                if not isinstance(Y, tt.TT) or project.wf_problems(Y) or project.derived_desc(Y.cores) != pre:
+                    run.problems.append(P("descriptor", "the copy is not a well-formed object of the same kind, shape and ranks"))
+                elif not torch.equal(project.dense(Y.cores), ref):
+                    run.problems.append(P("value", "the copy's dense value differs from the original's"))
+                if not torch.equal(project.dense(X.cores), ref):
+                    run.problems.append(P("operand-changed", "the original changed"))
+    run.evaluations += n
+    run.stats["tied_core_cases"] = n
+
+
 def rerun(payload):
     r = handler(payload["state"], {})
     return r["problems"] if r else []
